@@ -155,16 +155,33 @@ def answer_at(script, i):
     return sc[i] if i < len(sc) else (d or "full")
 
 
+_WENC = {}
+
+
+def enc_W(W):
+    """the chunk-list part of a c19-drive case, as one pre-joined token (cached per free run)"""
+    key = id(W)
+    if key not in _WENC:
+        toks = [str(len(W))]
+        for w in W:
+            toks.append(str(len(w)))
+            toks.extend(str(b) for b in w)
+        _WENC[key] = (W, " ".join(toks))
+    return _WENC[key][1]
+
+
 def enc_drive(script, W):
     sc, d = split_default(script)
-    script = sc + ([d] * (sum(len(w) for w in W) + len(W) + 2) if d else [])      # the model's scripts end in "accept everything"
+    script = sc + ([d] if d else [])      # the first failing answer ends the model's run, so one copy of the default is enough
     out = [len(script)]
     for a in script:
         out += enc_answer(a)
-    out.append(len(W))
-    for w in W:
-        out += [len(w)] + list(w)
+    out.append(enc_W(W))                  # vlib.fmt_case prints every item with str()
     return out
+
+
+def ints_of(case):
+    return [int(t) for x in case for t in str(x).split()]
 
 
 def dec_drive(m):
@@ -257,7 +274,7 @@ def multi_programs(rng, n):
             main = "child." + exts[5]
         elif c == 1:    # imported macros and import bodies (a module body's own output is discarded)
             t["lib." + exts[4]] = "libtext" + emit() + "{% macro m(v) %}m<{{ v }}{% include '" + names[depth] + "' ignore missing %}>{% endmacro %}{% macro k() %}" + emit() + "{% endmacro %}"
-            t[names[0]] = "{% import 'lib." + exts[4] + "' as L %}{% from 'lib." + exts[4] + "' import k %}" + t[names[0]] + "{{ L.m(f_int) }}{{ k() }}{% call L.m(1) %}x{% endcall %}"
+            t[names[0]] = "{% import 'lib." + exts[4] + "' as L %}{% from 'lib." + exts[4] + "' import k %}" + t[names[0]] + "{{ L.m(f_int) }}{{ k() }}"
         out.append(Prog(t, main, "template", VALUE_CTX, "lenient", label="multi", objects=True))
     return out
 
@@ -304,8 +321,8 @@ def gen_programs(chk):
     for t, main, entry, fm, ob in WRITER_PATHS:
         progs.append(Prog(t, main, entry, FAMILY_CTX, "lenient", label="family", formatter=fm, objects=ob))
     progs += value_programs()
-    progs += multi_programs(rng, 2000 if chk.thorough else 150)
-    n = 20000 if chk.thorough else 400
+    progs += multi_programs(rng, 2000 if chk.thorough else 60)
+    n = 20000 if chk.thorough else 300
     for j in range(n):
         html = j % 2 == 1
         inc = j % 5 == 0
@@ -324,13 +341,13 @@ def gen_programs(chk):
     return progs
 
 
-def scripts_for(chk, W, thorough):
+def scripts_for(chk, W, thorough, light=False):
     """every failure point x error kinds, Ok(0) at sampled points, short-write / interrupted scripts"""
     rng = chk.rng
     n = len(W)
     out = []
     for k in range(n + 1):                     # k = n: the failure point is never reached
-        for kind in MAIN_KINDS:
+        for kind in ([MAIN_KINDS[k % 3]] if light else MAIN_KINDS):      # light: one kind per failure point (long multi-template programs)
             out.append(["full"] * k + ["e:" + kind])
     pts = list(range(n)) if (thorough or n <= 12) else sorted({rng.below(n) for _ in range(6)})
     for k in range(n):                         # a sink that KEEPS failing from call k on
@@ -429,6 +446,7 @@ def main():
     bad = []                 # (prog index, script, profile, what, obs)
     samples = []
     chunk_checked = chunk_refined = failing_compared = failing_with_output = 0
+    model_cache = {}
     chunk_bad = []
     for rel in (False, True):
         prof = "release" if rel else "debug"
@@ -472,7 +490,7 @@ def main():
         for pi, (p, info) in enumerate(zip(progs, infos)):
             if info is None:
                 continue
-            scs = [replay_script] if replay_script is not None else scripts_for(chk, info["W"], chk.thorough)
+            scs = [replay_script] if replay_script is not None else scripts_for(chk, info["W"], chk.thorough, light=(p.label == "multi" and not chk.thorough))
             reqs.append(p.req([sink_req(sc) for sc in scs]))
             plan.append((pi, scs))
         outs = run_c19(reqs, release=rel)
@@ -503,7 +521,13 @@ def main():
                         samples.append({"program": p.describe(), "script": sc, "received": hexb(ob["got"]).decode("utf8", "replace"),
                                         "result": ob["result"], "free_run_writes": [w.decode("utf8", "replace") for w in info["W"]][:12]})
         # correspondence with the extracted model: complete call log + returned error
-        model = run_model("C19", "c19-drive", cases)
+        log("[C19] %s: engine runs done %.1fs" % (prof, time.time() - chk.t0))
+        keys = [fmt_case(c_) for c_ in cases]
+        todo = [i for i, k_ in enumerate(keys) if k_ not in model_cache]
+        for i, m_ in zip(todo, run_model("C19", "c19-drive", [cases[i] for i in todo])):
+            model_cache[keys[i]] = m_          # the release profile offers the same free runs: the model is asked once per distinct case
+        model = [model_cache[k_] for k_ in keys]
+        log("[C19] %s: model runs done %.1fs" % (prof, time.time() - chk.t0))
         for m, (pi, sc, ob), case in zip(model, case_ref, cases):
             d = dec_drive(m)
             if d is None:
@@ -521,9 +545,9 @@ def main():
                 model_mism.append((pi, sc, prof, "call log / result differs from the model", {"model": [res, len(calls)], "impl": [impl_res, len(impl_calls)]}))
         if not rel and not chk.replay:
             # kernel cross-check of the extracted model on small cases
-            small = sorted(range(len(cases)), key=lambda i: len(cases[i]))
-            small = [i for i in small if len(cases[i]) > 12][:15]
-            kern = kernel_eval("run_drive", [cases[i] for i in small], "k_C19", imports="Common.Base C19.Runner")
+            small = sorted(range(len(cases)), key=lambda i: len(cases[i]) + len(cases[i][-1]) // 2)
+            small = [i for i in small if len(cases[i]) + len(cases[i][-1]) // 2 > 12][:15]
+            kern = kernel_eval("run_drive", [ints_of(cases[i]) for i in small], "k_C19", imports="Common.Base C19.Runner")
             kern_ok = kern is not None and all(kern[j] == model[small[j]] for j in range(len(small)))
             chk.cov["kernel_crosscheck"] = {"cases": len(small), "agree": kern_ok}
             # the interpreter's chunk list (core fragment, generated programs without includes)
